@@ -28,6 +28,10 @@ CHECKS = {
             "real": ["include/oneapi/tbb/concurrent_unordered_{map,set}.h, concurrent_{map,set}.h, detail/_concurrent_unordered_base.h (split-ordered list), detail/_concurrent_skip_list.h"]},
     "C13": {"scenarios": ["c13"], "quick_budget_s": 40, "thorough_budget_s": 600,
             "real": ["include/oneapi/tbb/concurrent_priority_queue.h, detail/_aggregator.h"]},
+    "C14": {"scenarios": ["c14"], "quick_budget_s": 50, "thorough_budget_s": 900,
+            "real": ["include/oneapi/tbb/flow_graph.h and detail/_flow_graph_*: function/multifunction/continue/input/buffer/queue/broadcast/limiter/join/async nodes, graph::wait_for_all, reserve_wait, cancel"]},
+    "C15": {"scenarios": ["c15"], "quick_budget_s": 50, "thorough_budget_s": 900,
+            "real": ["flow graph queue_node, sequencer_node, priority_queue_node, join_node (queueing / key_matching / reserving), limiter_node, overwrite_node, write_once_node, split_node, indexer_node, reservation protocol"]},
     "C16": {"scenarios": ["c16"], "quick_budget_s": 50, "thorough_budget_s": 900,
             "real": ["src/tbb/arena.cpp (slots, occupy_free_slot, nested_arena_context, delegation), market.cpp allotment, threading_control, global_control.cpp, observer_proxy.cpp, isolation in arena_slot/task_dispatcher"],
             "assumptions": ["the allotment arithmetic 'for all demand vectors' is a pure function: it is exercised by the demand vectors real scenarios produce and guarded by oneTBB's own assertion (see known finding), not checked through a dedicated hook"]},
@@ -70,6 +74,11 @@ ASSUMPTIONS = [
 NOT_APPLICABLE = {}
 
 MANIFEST_TEXT = {
+    "C14": {"level": "Seeded search over schedules of 7 graph topologies built from the standard nodes (function-node chains with queueing / rejecting / lightweight policies and concurrency serial / 2 / unlimited, broadcast + queueing join, buffering sender in front of a rejecting serial node, input_node + limiter with decrement feedback, multifunction routing, continue_node fan-in, async_node completed by a foreign thread) with 1-3 external putting threads, optional concurrent graph::cancel; "
+                     "oracle: per node and message exactly-once processing, concurrent bodies <= limit, sink multiset == accepted multiset, rejected external puts leave nothing in the graph, wait_for_all returns only when no body runs / no reserve_wait is outstanding and nothing starts afterwards.",
+            "note": "<= 12 messages and <= 6 nodes per run; UBSan's null check is off in the flow-graph translation units (benign idiom in the tagged buffer, see build.mk)."},
+    "C15": {"level": "Seeded search over schedules of one node under test between 1-3 putting threads and a serial recording sink or pulling consumer: queue_node (per-producer FIFO), sequencer_node (any arrival permutation -> 0,1,2,...; numbers below the head rejected), priority_queue_node, join_node queueing / key_matching / reserving (unpaired inputs stay upstream), limiter_node with in-graph decrement feedback and several messages in flight, overwrite_node / write_once_node incl. successors added later, split_node / indexer_node routing, try_reserve / try_release / try_consume conservation.",
+            "note": "<= 12 messages per run; the limiter oracle counts forwarded-but-not-yet-decremented messages inside the stage behind the limiter."},
     "C02": {"level": "Seeded search over schedules, spurious futex wake-ups, wake-order choices, thread-start failures, clock jumps and x86-TSO store-buffer delays of (a) sleeper/notifier programs on the real concurrent_monitor (prepare/re-check/commit vs state-change/notify_all/notify(predicate)) and (b) whole-runtime programs in which enqueued work must run although its submitter never calls a TBB wait: arenas of every small shape, several arenas competing for workers, max_allowed_parallelism=1 (mandatory worker), execute() on saturated arenas (exit monitor), bursts separated by idle phases; "
                      "verdict = the simulator's deadlock / permanent-livelock criterion under a fair scheduler (no timing assumption) plus predicate-true-on-return checks. Sensitivity shown by removing the seq_cst fence of notify_all/notify: 12 deadlocks in 176k runs.",
             "note": "liveness is judged as 'no state-changing step possible any more', never as a step budget; fences that are redundant on x86 (followed by a locked instruction) cannot and need not be detected."},
